@@ -115,3 +115,52 @@ func knownProgramFindings(c *engine.Ctx) {
 		}
 	}
 }
+
+// pairWitness: two programs that the property says must agree (flag on/off, two spellings, ...).
+type pairWitness struct {
+	A programWitness `json:"a"`
+	B programWitness `json:"b"`
+}
+
+func verdictOf(s string) string {
+	if len(s) >= 2 && s[:2] == "ok" {
+		return "ok"
+	}
+	return s
+}
+
+// knownPairFindings replays findings of kind "program-pair": observed is "<verdictA>/<verdictB>".
+func knownPairFindings(c *engine.Ctx) {
+	for _, k := range c.KnownFor() {
+		if k.Kind != "program-pair" {
+			continue
+		}
+		var w pairWitness
+		if err := json.Unmarshal(k.Witness, &w); err != nil {
+			c.Note("known finding %s: bad witness: %v", k.ID, err)
+			continue
+		}
+		a, _ := observe(w.A)
+		b, _ := observe(w.B)
+		got := verdictOf(a) + "/" + verdictOf(b)
+		c.Count("known-findings", k.Status)
+		same := verdictOf(a) == verdictOf(b) && (verdictOf(a) != "ok" || a == b)
+		switch k.Status {
+		case "open":
+			switch {
+			case got == k.Observed:
+				c.ReportKnown(k)
+			case same:
+				c.Note("known finding %s no longer reproduces: both sides now agree (%s)", k.ID, got)
+			default:
+				c.Fail("oracle", fmt.Sprintf("known finding %s changed: recorded %q, real code now does %q", k.ID, k.Observed, got),
+					M{"kind": "program-pair", "finding": k.ID, "witness": k.Witness, "now": got}, false)
+			}
+		case "fixed":
+			if !same {
+				c.Fail("oracle", fmt.Sprintf("fixed finding %s has returned: the two programs disagree (%s)", k.ID, got),
+					M{"kind": "program-pair", "finding": k.ID, "witness": k.Witness, "now": got}, false)
+			}
+		}
+	}
+}
